@@ -108,7 +108,7 @@ impl Property for C13Pool {
     type Case = PoolCase;
     fn part(&self) -> &'static str { "pool-sched" }
     fn strategy(&self, _tier: Tier) -> BoxedStrategy<PoolCase> { Self::strategy_impl() }
-    fn cases(&self, tier: Tier) -> u32 { match tier { Tier::Quick => 8_000, Tier::Thorough => 200_000 } }
+    fn cases(&self, tier: Tier) -> u32 { match tier { Tier::Quick => 40_000, Tier::Thorough => 400_000 } }
     fn rule(&self) -> String {
         "generated: free list (AtomicMove | FullSyncMove) x POOL_SIZE {2,4,8} x free-list counter origin {0, just below 2^32} x 0..POOL_SIZE slots allocated beforehand (shared out among the threads) x 2..4 threads of 1..5 ops over {alloc_ref, alloc_with, dealloc_ref / dealloc_id of a slot the thread owns, id<->ref round trip} x schedule; payload with a destructor reporting to a ledger; \
          oracle: no double allocation (an alloc returning a slot that was owned during its whole call), a slot's payload is intact when its owner frees it, id<->reference is a bijection onto POOL_SIZE slots size_of::<T>() apart, never more than POOL_SIZE outstanding, an alloc fails only if POOL_SIZE slots could have been outstanding at some instant of the call (outstanding = from the call of the alloc until the return of the dealloc), destructors ran exactly once per freed slot; afterwards (everything freed) exactly POOL_SIZE allocations succeed; \
@@ -386,7 +386,7 @@ impl Property for C14Handles {
             .prop_map(|((fs, shared_start, occupied), threads, schedule)| HandleCase { free_list: if fs { FreeList::FullSync } else { FreeList::Atomic }, shared_start, occupied: if shared_start { occupied.min(6) } else { occupied }, threads, schedule })
             .boxed()
     }
-    fn cases(&self, tier: Tier) -> u32 { match tier { Tier::Quick => 8_000, Tier::Thorough => 200_000 } }
+    fn cases(&self, tier: Tier) -> u32 { match tier { Tier::Quick => 40_000, Tier::Thorough => 400_000 } }
     fn rule(&self) -> String {
         "generated: pool allocator (atomic | full-sync free list, 8 slots of which the harness occupies 0 / 5 / 6 / 7 beforehand, so that new values re-use slots other threads have just released) x 2..3 threads of 1..6 ops over {OgreArc::new_with, new_with_clones::<3>, OgreUnique::new, clone, increment_references(2)+2 raw copies, into_ogre_arc, deref+check, drop, hand a handle to the next thread, take handed-over handles} x optionally every thread starts with a clone of one shared value x schedule; values carry a destructor reporting to a ledger; \
          oracle: every deref of a live handle yields the value written at creation (intact); when all threads are done references_count() of every value equals its number of live shared handles and no value with a live handle was destroyed; after the remaining handles are dropped every value was destroyed exactly once, no destructor ran on garbage, and all 8 pool slots can be allocated again; \
@@ -578,7 +578,7 @@ impl Property for C19Average {
             .prop_map(|(recorders, probes, schedule)| AvgCase { recorders, probes, schedule })
             .boxed()
     }
-    fn cases(&self, tier: Tier) -> u32 { match tier { Tier::Quick => 10_000, Tier::Thorough => 200_000 } }
+    fn cases(&self, tier: Tier) -> u32 { match tier { Tier::Quick => 40_000, Tier::Thorough => 400_000 } }
     fn rule(&self) -> String {
         "generated: 2..3 recorder threads with 1..5 measurements each from {-1.0 ('no timing' sentinel), 0, 0.5, 2, 3, 8, 1024, 65536} + one reader probing 1..4 times x schedule, on a StreamExecutor's public ok_events_avg_future_duration metric (AtomicIncrementalAverage64); \
          oracle: the final count equals the number of inc() calls; the final average equals the arithmetic mean (relative 1e-4); every probe (c, a): c lies between the incs completed before the probe was called and the incs started before it returned, and a is the mean of some choice of c measurements made of a prefix of every recorder's sequence that is consistent with those bounds per recorder (so count and average belong to the same update); \
